@@ -72,6 +72,7 @@ func (p *c07) Rule() string {
 		"chain part: straight chains of n layouts, every n in 1..102 plus 150 (thorough: plus 200) for layouts/ placement and a subset (thorough: all) for relative placement with decoys in layouts/, default-base start, and explicit .vuego names; " +
 		"cycle part: cycles of length 1-4 entered after 0-3 links x {layouts/, relative, started by the default base, closing through the page, explicit .vuego names}; " +
 		"keys part: for keys ka and title every subset of defining sources {Fill, page front-matter, first layout, second layout} (16x16) x Fill kind {none,map,struct,*struct} x {named chain p->a->b, default chain p->base->a}, other keys and `content` random; " +
+		"samename part: 4 hand-built chains in which one bare layout name resolves to different files from different directories within a single chain (layouts/ fallback first and a file next to the naming layout later, the reverse, and two names crossed); " +
 		"datalayout part: page without a front-matter layout, no layouts/base.vuego, Fill data carrying layout in {a (chain a->b), b, a.vuego} x page in {p, sub/p} x page front-matter {keys, empty block}: no error, and the nest is the page alone or the chain the key names; " +
 		"rand part: seeded random file trees over {.,sub,layouts} x {a,b,c,base,p,q} with plain, ./, ../, dir/ and .vuego layout names, random front-matter keys, document-style bodies and Fill kinds. " +
 		"Every case is rendered through Load(page).Fill(data).Render and Fill(data).RenderFile(page). non-trivial = the reference predicts at least one layout link or an error; distinct by the whole case"
@@ -490,7 +491,7 @@ func c07RandCase(r *core.RNG) c07Case {
 func (p *c07) nRand(ctx core.Ctx) int { return ctx.Pick(3000, 40000) }
 
 func (p *c07) Plan(ctx core.Ctx) int {
-	return len(c07GraphList()) + len(c07ChainSpecs(ctx)) + len(c07CycleSpecs()) + c07NKeys + c07NDataLayout + p.nRand(ctx)
+	return len(c07GraphList()) + len(c07ChainSpecs(ctx)) + len(c07CycleSpecs()) + c07NKeys + c07NDataLayout + len(c07SameNameCases()) + p.nRand(ctx)
 }
 
 // datalayout part: the page's front-matter names no layout, layouts/base.vuego
@@ -499,6 +500,42 @@ func (p *c07) Plan(ctx core.Ctx) int {
 // both readings are accepted (page alone, or the chain the key names); what it
 // does rule out is the default being applied although its file does not exist.
 const c07NDataLayout = 2 * 3 * 2
+
+// samename part: one bare layout name resolves to different files from
+// different directories within a single chain (layouts/ fallback first, a file
+// next to the naming layout later, and the other way round).
+func c07SameNameCases() []c07Case {
+	mk := func(shape string, files ...c07File) c07Case {
+		return c07Case{Part: "samename", Shape: shape, Files: files, Page: files[0].Path, FillKind: "none"}
+	}
+	return []c07Case{
+		mk("fallback-then-local",
+			c07File{Path: "pages/p.vuego", Layout: "frame"},
+			c07File{Path: "layouts/frame.vuego", Layout: "../shared/inner.vuego"},
+			c07File{Path: "shared/inner.vuego", Layout: "frame"},
+			c07File{Path: "shared/frame.vuego"}),
+		mk("local-then-fallback",
+			c07File{Path: "shared/p.vuego", Layout: "frame"},
+			c07File{Path: "shared/frame.vuego", Layout: "../other/inner.vuego"},
+			c07File{Path: "other/inner.vuego", Layout: "frame"},
+			c07File{Path: "layouts/frame.vuego"}),
+		mk("fallback-local-fallback",
+			c07File{Path: "p.vuego", Layout: "a"},
+			c07File{Path: "layouts/a.vuego", Layout: "../sub/m.vuego"},
+			c07File{Path: "sub/m.vuego", Layout: "a"},
+			c07File{Path: "sub/a.vuego", Layout: "../deep/n.vuego"},
+			c07File{Path: "deep/n.vuego", Layout: "b"},
+			c07File{Path: "layouts/b.vuego"}),
+		mk("two-names-crossed",
+			c07File{Path: "x/p.vuego", Layout: "a"},
+			c07File{Path: "x/a.vuego", Layout: "b"},
+			c07File{Path: "layouts/b.vuego", Layout: "../y/k.vuego"},
+			c07File{Path: "y/k.vuego", Layout: "a"},
+			c07File{Path: "layouts/a.vuego", Layout: "../z/k.vuego"},
+			c07File{Path: "z/k.vuego", Layout: "b"},
+			c07File{Path: "z/b.vuego"}),
+	}
+}
 
 func c07DataLayoutCase(i int) c07Case {
 	pageDir := []string{"", "sub/"}[i%2]
@@ -546,6 +583,11 @@ func (p *c07) Gen(ctx core.Ctx, i int) any {
 	}
 	if i < c07NDataLayout {
 		return c07DataLayoutCase(i)
+	} else {
+		i -= c07NDataLayout
+	}
+	if sn := c07SameNameCases(); i < len(sn) {
+		return sn[i]
 	}
 	return c07RandCase(r)
 }
